@@ -219,6 +219,8 @@ Definition rl_xgo (t : table) :=
         match tbl_colidx t c with
         | None => fail EMissingComp
         | Some i =>
+            if negb (ck_rel (nth i (t_kinds t) (Build_ckind false false true))) then fail ENotRelation
+            else
             match nth_error tg i with
             | None => fail EIndex
             | Some cur => if ent_eqb x cur then go rest tg cm changed
@@ -227,9 +229,18 @@ Definition rl_xgo (t : table) :=
         end
     end.
 
+(** the kind found for a missing column: not a relation (so a bad index is rejected as well) *)
+Definition rl_dk : ckind := Build_ckind false false true.
+
+(** a named component that is not a column of the table, or a column that is not a relation column *)
+Definition rl_bad_rel (t : table) (r : rel) : Prop :=
+  tbl_colidx t (fst r) = None \/
+  exists i, tbl_colidx t (fst r) = Some i /\ ck_rel (nth i (t_kinds t) (Build_ckind false false true)) = false.
+
 Lemma rl_exchange_targets_unfold : forall t rels,
   exchange_targets t rels =
-  (r <- rl_xgo t rels (t_targets t) 0%N false ;;
+  (guard (rels_distinct rels) ERelUnspec ;;;
+   r <- rl_xgo t rels (t_targets t) 0%N false ;;
    let '(targets, cm, changed) := r in
    if negb changed then ret None
    else ret (Some (map (fun p => (fst (fst p), snd p))
@@ -253,7 +264,7 @@ Qed.
 Lemma rl_xgo_spec : forall t, NoDup (t_ids t) -> forall rels tg cm ch s,
   length tg = length (t_ids t) ->
   match rl_xgo t rels tg cm ch s with
-  | Err _ s' => s' = s /\ exists r, In r rels /\ tbl_colidx t (fst r) = None
+  | Err _ s' => s' = s /\ exists r, In r rels /\ rl_bad_rel t r
   | Ok (tg', cm', ch') s' =>
       s' = s /\ length tg' = length tg /\
       (forall i c, nth_error (t_ids t) i = Some c ->
@@ -262,14 +273,18 @@ Lemma rl_xgo_spec : forall t, NoDup (t_ids t) -> forall rels tg cm ch s,
                               | None => nth i tg zero_ent end) /\
       (forall c, mk_get cm' c = true -> mk_get cm c = true \/ exists x, In (c, x) rels) /\
       (ch = true -> ch' = true) /\
-      (ch' = false -> forall r, In r rels -> exists i, tbl_colidx t (fst r) = Some i /\ nth_error tg i = Some (snd r))
+      (ch' = false -> forall r, In r rels -> exists i, tbl_colidx t (fst r) = Some i /\ nth_error tg i = Some (snd r)) /\
+      (forall r, In r rels -> exists i, tbl_colidx t (fst r) = Some i /\
+                                        ck_rel (nth i (t_kinds t) (Build_ckind false false true)) = true)
   end.
 Proof.
   intros t ND. induction rels as [|[c x] rest IH]; intros tg cm ch s Hlen.
   - simpl. unfold ret. split; [reflexivity|]. split; [reflexivity|]. split; [intros; reflexivity|].
-    split; [intros c H; left; exact H|]. split; [auto|]. intros _ r [].
+    split; [intros c H; left; exact H|]. split; [auto|]. split; [intros _ r []|intros r []].
   - cbn [rl_xgo]. fold (rl_xgo t). destruct (tbl_colidx t c) as [i|] eqn:Ei.
-    2:{ unfold fail. split; [reflexivity|]. exists (c, x). split; [left; reflexivity|exact Ei]. }
+    2:{ unfold fail. split; [reflexivity|]. exists (c, x). split; [left; reflexivity|left; exact Ei]. }
+    destruct (ck_rel (nth i (t_kinds t) (Build_ckind false false true))) eqn:Ekr; cbn [negb].
+    2:{ unfold fail. split; [reflexivity|]. exists (c, x). split; [left; reflexivity|right; exists i; split; [exact Ei|exact Ekr]]. }
     pose proof (rl_index_of_some _ _ _ Ei) as Hi.
     assert (Li : i < length tg) by (rewrite Hlen; eapply sa_nth_error_lt; eauto).
     destruct (nth_error tg i) as [cur|] eqn:Ec; [|apply nth_error_None in Ec; lia].
@@ -281,8 +296,8 @@ Proof.
     + apply rl_ent_eqb_eq in Ex. subst cur.
       specialize (IH tg cm ch s Hlen).
       destruct (rl_xgo t rest tg cm ch s) as [[[tg' cm'] ch'] s'|e s'].
-      * destruct IH as (Hs & Hl & Htg & Hcm & Hmono & Hch). split; [exact Hs|]. split; [exact Hl|].
-        split; [|split; [|split]].
+      * destruct IH as (Hs & Hl & Htg & Hcm & Hmono & Hch & Hrel). split; [exact Hs|]. split; [exact Hl|].
+        split; [|split; [|split; [|split]]].
         -- intros i0 c0 H0. rewrite (Htg i0 c0 H0). simpl rev. rewrite rl_find_app.
            destruct (find (fun r : rel => fst r =? c0) (rev rest)); [reflexivity|].
            simpl. destruct (Nat.eqb_spec c c0); [|reflexivity]. subst c0.
@@ -292,13 +307,14 @@ Proof.
         -- intros Hf r [<-|Hr].
            ++ exists i. split; [exact Ei|exact Ec].
            ++ apply Hch; assumption.
+        -- intros r [<-|Hr]; [exists i; split; [exact Ei|exact Ekr]|apply Hrel; exact Hr].
       * destruct IH as (Hs & r & Hr & Hn). split; [exact Hs|]. exists r. split; [right; exact Hr|exact Hn].
     + assert (Hlen' : length (upd i x tg) = length (t_ids t)) by (rewrite upd_length; exact Hlen).
       specialize (IH (upd i x tg) (mk_set cm c) true s Hlen').
       destruct (rl_xgo t rest (upd i x tg) (mk_set cm c) true s) as [[[tg' cm'] ch'] s'|e s'].
-      * destruct IH as (Hs & Hl & Htg & Hcm & Hmono & Hch). split; [exact Hs|].
+      * destruct IH as (Hs & Hl & Htg & Hcm & Hmono & Hch & Hrel). split; [exact Hs|].
         split; [rewrite Hl; apply upd_length|].
-        split; [|split; [|split]].
+        split; [|split; [|split; [|split]]].
         -- intros i0 c0 H0. rewrite (Htg i0 c0 H0). simpl rev. rewrite rl_find_app.
            destruct (find (fun r : rel => fst r =? c0) (rev rest)); [reflexivity|].
            simpl. destruct (Nat.eqb_spec c c0).
@@ -311,6 +327,7 @@ Proof.
            ++ right. exists y. right. exact H1.
         -- intros _. apply Hmono. reflexivity.
         -- intros Hf. rewrite (Hmono eq_refl) in Hf. discriminate.
+        -- intros r [<-|Hr]; [exists i; split; [exact Ei|exact Ekr]|apply Hrel; exact Hr].
       * destruct IH as (Hs & r & Hr & Hn). split; [exact Hs|]. exists r. split; [right; exact Hr|exact Hn].
 Qed.
 
@@ -342,9 +359,20 @@ Proof.
     apply rl_nth_error_combine. auto.
 Qed.
 
-(** getExchangeTargets (SetRelations): the new relation list of the table differs from the old
-    targets exactly at the named components; a component the table lacks is rejected; if nothing
-    changes it reports "unchanged". *)
+(** [rels_distinct] says that no component is named twice. *)
+Lemma rl_rels_distinct_nodup : forall rels : list rel, rels_distinct rels = true <-> NoDup (map fst rels).
+Proof.
+  induction rels as [|r rest IH]; cbn [rels_distinct map]; [split; [constructor|reflexivity]|].
+  rewrite andb_true_iff, negb_true_iff, IH. split.
+  - intros (Hm & Hn). constructor; [|exact Hn]. intros Hin. apply sa_memb_in in Hin. congruence.
+  - intros H. inversion H as [|? ? Hn Hnd]; subst. split; [|exact Hnd].
+    destruct (memb (fst r) (map fst rest)) eqn:E; [|reflexivity]. apply sa_memb_in in E. contradiction.
+Qed.
+
+(** getExchangeTargets (SetRelations): a component named twice, a component the table lacks and a
+    column that is not a relation column are rejected (state unchanged); otherwise the new relation
+    list of the table differs from the old targets exactly at the named components, and if nothing
+    changes it reports "unchanged". On success the names are distinct relation columns. *)
 Theorem exchange_targets_spec : forall s t rels,
   length (t_targets t) = length (t_ids t) -> length (t_kinds t) = length (t_ids t) -> NoDup (t_ids t) ->
   match exchange_targets t rels s with
@@ -357,13 +385,19 @@ Theorem exchange_targets_spec : forall s t rels,
                           | Some r => snd r
                           | None => nth i (t_targets t) zero_ent end) /\
       (forall c, mk_get cm c = true -> exists tg, In (c, tg) rels)
-  | Err _ s' => s' = s /\ exists r, In r rels /\ tbl_colidx t (fst r) = None
+  | Err _ s' => s' = s /\ (rels_distinct rels = false \/ exists r, In r rels /\
+      (tbl_colidx t (fst r) = None \/
+       exists i, tbl_colidx t (fst r) = Some i /\ ck_rel (nth i (t_kinds t) (Build_ckind false false true)) = false))
   end.
 Proof.
-  intros s t rels Hlt Hlk ND. rewrite rl_exchange_targets_unfold. unfold bind.
+  intros s t rels Hlt Hlk ND. rewrite rl_exchange_targets_unfold.
+  destruct (rels_distinct rels) eqn:Ed; cbn [guard].
+  2:{ rewrite (sa_bind_err (m := fail ERelUnspec) (s := s) (e := ERelUnspec) (s' := s) eq_refl). split; [reflexivity|left; reflexivity]. }
+  rewrite (sa_bind_ok (m := ret tt) (s := s) eq_refl). unfold bind.
   pose proof (rl_xgo_spec t ND rels (t_targets t) 0%N false s Hlt) as SP.
-  destruct (rl_xgo t rels (t_targets t) 0%N false s) as [[[tg' cm'] ch'] s'|e s']; [|exact SP].
-  destruct SP as (Hs & Hl & Htg & Hcm & _ & Hch).
+  destruct (rl_xgo t rels (t_targets t) 0%N false s) as [[[tg' cm'] ch'] s'|e s'].
+  2:{ destruct SP as (Hs & r & Hr & Hb). split; [exact Hs|]. right. exists r. split; [exact Hr|exact Hb]. }
+  destruct SP as (Hs & Hl & Htg & Hcm & _ & Hch & _).
   destruct ch'; cbn [negb]; unfold ret.
   - split; [exact Hs|]. split.
     + intros c tg. rewrite rl_newrels_in. split.
@@ -375,6 +409,24 @@ Proof.
       unfold mk_get in H0. rewrite N.bits_0 in H0. discriminate.
   - split; [exact Hs|]. intros r Hr. destruct (Hch eq_refl r Hr) as (i & H1 & H2).
     unfold tbl_target. rewrite H1. exact H2.
+Qed.
+
+(** On success every named component is a relation column of the table and no component is named twice. *)
+Theorem exchange_targets_ok_valid : forall s t rels r0 s',
+  NoDup (t_ids t) -> length (t_targets t) = length (t_ids t) ->
+  exchange_targets t rels s = Ok r0 s' ->
+  NoDup (map fst rels) /\
+  forall r, In r rels -> exists i, tbl_colidx t (fst r) = Some i /\
+                                   ck_rel (nth i (t_kinds t) (Build_ckind false false true)) = true.
+Proof.
+  intros s t rels r0 s' ND Hlt E. rewrite rl_exchange_targets_unfold in E.
+  destruct (rels_distinct rels) eqn:Ed; cbn [guard] in E.
+  2:{ rewrite (sa_bind_err (m := fail ERelUnspec) (s := s) (e := ERelUnspec) (s' := s) eq_refl) in E. discriminate. }
+  split; [apply rl_rels_distinct_nodup; exact Ed|].
+  rewrite (sa_bind_ok (m := ret tt) (s := s) eq_refl) in E. unfold bind in E.
+  pose proof (rl_xgo_spec t ND rels (t_targets t) 0%N false s Hlt) as SP.
+  destruct (rl_xgo t rels (t_targets t) 0%N false s) as [[[tg' cm'] ch'] s1|e s1]; [|discriminate].
+  destruct SP as (_ & _ & _ & _ & _ & _ & Hrel). exact Hrel.
 Qed.
 
 (** ** Matching compares generations *)
